@@ -37,6 +37,11 @@ pub struct Group {
 }
 
 pub fn make_group(r: &mut Prng, m: Vec<u8>, e: Vec<u8>, t: u32, local: bool, auxs: Vec<Option<Vec<u8>>>) -> Option<Group> {
+  make_group_with(r, m, e, t, local, auxs, None)
+}
+/// `forced`: the 32 bytes of client randomness handed in from outside (a randomness server answers per measurement and
+/// epoch, so two cohorts under different thresholds can hold the same bytes)
+pub fn make_group_with(r: &mut Prng, m: Vec<u8>, e: Vec<u8>, t: u32, local: bool, auxs: Vec<Option<Vec<u8>>>, forced: Option<[u8; 32]>) -> Option<Group> {
   // the conversion impls of the value types are glue the reports go through as well: text measurements are built
   // with From<&str>, every other one with new(); length accessors must agree with the bytes
   let sm = match std::str::from_utf8(&m) {
@@ -51,6 +56,8 @@ pub fn make_group(r: &mut Prng, m: Vec<u8>, e: Vec<u8>, t: u32, local: bool, aux
   if local {
     // (a panic of the library here or below is a failed generation, reported by the caller - not the end of the run)
     rnd = guarded(|| { let mut x = [0u8; 32]; mg.sample_local_randomness(&mut x); x })?;
+  } else if let Some(f) = forced {
+    rnd = f;
   } else {
     rnd.copy_from_slice(&r.bytes(32));
   }
@@ -247,6 +254,7 @@ fn gen_c01_special(out: &mut Out) {
 pub fn gen_c01(seed: u64, thorough: bool, only: Option<u64>, out: &mut Out) {
   if only.is_none() {
     gen_reuse(seed, thorough, out);
+    gen_same_randomness_cohorts(seed, thorough, out);
     gen_c01_special(out);
   }
   let groups: u64 = if thorough { 400 } else { 36 };
@@ -288,6 +296,45 @@ pub fn gen_c01(seed: u64, thorough: bool, only: Option<u64>, out: &mut Out) {
       }
     }
     out.case(scn_case(&g, &sel), format!("wire={} {}", g.wire.iter().map(|b| hex(b)).collect::<Vec<_>>().join(","), obs), v);
+  }
+}
+
+/// Cohorts of one measurement and epoch that hold the SAME outside randomness (a randomness server answers per
+/// measurement and epoch) but report under different thresholds, generated back to back on one thread - higher
+/// threshold first, then lower, then higher again: each cohort recovers from exactly its own threshold-many reports.
+pub fn gen_same_randomness_cohorts(seed: u64, thorough: bool, out: &mut Out) {
+  for gi in 0..(if thorough { 24u64 } else { 4 }) {
+    let mut r = Prng::for_case(seed, "cohorts", gi);
+    let m = { let l_ = 1 + r.below(40) as usize; r.blob(l_) };
+    let e = { let l_ = r.below(9) as usize; r.blob(l_) };
+    let mut rnd = [0u8; 32];
+    rnd.copy_from_slice(&r.bytes(32));
+    let ts: Vec<u32> = match gi % 4 { 0 => vec![3, 2, 3], 1 => vec![5, 2, 1], 2 => vec![2, 3, 2], _ => vec![4, 3, 2, 1] };
+    for &t in &ts {
+      let auxs: Vec<Option<Vec<u8>>> = (0..t as usize).map(|i| aux_choice(&mut r, i)).collect();
+      let g = match make_group_with(&mut r, m.clone(), e.clone(), t, false, auxs, Some(rnd)) {
+        Some(g) => g,
+        None => {
+          out.case(format!("star.scn-gen cohorts-{}-{}", gi, t), "generate-failed".into(), Err("Message::generate failed".into()));
+          continue;
+        }
+      };
+      let sel: Vec<usize> = (0..t as usize).collect();
+      let (obs, m0, pays) = server_side(&g.e, &g.wire, &sel);
+      let r3 = derive3(&g.rnd);
+      let mut v = Ok(());
+      if m0.as_deref() != Some(&r3[0][..]) {
+        v = Err(format!("a cohort of {} reports under threshold {} (same outside randomness as a cohort under another threshold generated just before) does not recover", t, t));
+      } else {
+        for (i, p) in pays.iter().enumerate() {
+          if *p != Some((g.m.clone(), g.aux[i].clone())) {
+            v = Err(format!("report {} decrypts to {} instead of what its client supplied", i, pay_str(p)));
+            break;
+          }
+        }
+      }
+      out.case(scn_case(&g, &sel), format!("wire={} {}", g.wire.iter().map(|b| hex(b)).collect::<Vec<_>>().join(","), obs), v);
+    }
   }
 }
 
@@ -463,6 +510,7 @@ pub fn gen_c02(seed: u64, thorough: bool, only: Option<u64>, out: &mut Out) {
   if only.is_none() {
     gen_c02_high(seed, thorough, out);
     gen_reuse(seed ^ 0x2, thorough, out);
+    gen_same_randomness_cohorts(seed ^ 0x2, thorough, out);
     // no single share carries the secret: also under chosen draws of the random source for the share point
     crate::g_sharks::gen_forced_points(out);
   }
